@@ -71,6 +71,17 @@ class NF:
 
     def nf(self, t):
         tag = t[0]
+        if tag == "phi":
+            # a case distinction whose alternatives are algebraically the same expression (two multiplication orders
+            # chosen by shape, a fast path and its fallback) is that expression
+            alts = [self.nf(x) for x in t[1] if x[0] != "loopback"]
+            if alts and len(alts) == len(t[1]) and all(a == alts[0] for a in alts[1:]):
+                return alts[0]
+            return self.atom(t)
+        from terms import const_scalar
+        c = const_scalar(t)
+        if c is not None:
+            return {((), ()): Fraction(c)} if c else {}
         if tag == "call":
             cid, head, args = t[1], t[2], t[3]
             if cid == "std::ops::Mul::mul" and len(args) == 2:
